@@ -2,6 +2,7 @@
 # Single entry point: run.sh check <Cxx> [quick|thorough] | replay <file> | selftest <name>
 # Rebuilds the (tiny) orchestrator if its sources are newer than the binaries, then delegates.
 set -uo pipefail
+if [ "${1:-}" = "replay" ] && [ -n "${2:-}" ] && [ "${2#/}" = "$2" ]; then set -- replay "$PWD/$2"; fi
 cd "$(dirname "$0")"
 export GOFLAGS=-mod=mod GOPROXY=off GOSUMDB=off GOTOOLCHAIN=local CGO_ENABLED=0
 export VERIF_ROOT="$(pwd)"
